@@ -447,6 +447,11 @@ func (s *controlledSelector) HandleSuccessResponse(
 		}
 	}
 
+	// A deferred nomination is consumed by the first successful check: later
+	// responses on this pair (e.g. keepalives) must not re-apply it.
+	pair.nominateOnBindingSuccess = false
+	pair.deferredNominationValue = nil
+
 	pair.UpdateRoundTripTime(rtt)
 }
 
